@@ -68,7 +68,7 @@ func c08(r *mon.Run) {
 	r.Assumptions = []string{"the slice model ref.PySliceIndices equals CPython slicing (checked against a table frozen from CPython in setup self-tests)",
 		"a compile error is accepted for an integer outside the int64 range (implementation limit), a panic never"}
 	r.Floor = 1000
-	maxN := tierPick(r, 6, 13)
+	maxN := tierPick(r, 8, 24)
 	var blocks []sliceBlock
 	total := 0
 	add := func(n int, vals []string, form int) {
